@@ -10,7 +10,8 @@ Tr == ndJsonDeserialize("tr.ndjson")
 VARIABLE l
 
 ConcFails(e) ==
-  IF e.res # "done" THEN {"schedule-did-not-complete-" \o e.res} ELSE
+  \* a schedule the code did not follow to the end (its own goroutines reached the callbacks in another order): nothing is concluded
+  IF e.res # "done" THEN {"incomplete-schedule-" \o e.res} ELSE
   (IF \E i \in 1..Len(e.snaps) : e.snaps[i] # e.init THEN {"shared-value-modified-by-a-read-only-call"} ELSE {})
   \cup (IF e.results # e.expect THEN {"result-differs-from-sequential-execution"} ELSE {})
   \cup (IF ~e.outsok THEN {"encoding-differs-from-sequential-execution"} ELSE {})
